@@ -1524,7 +1524,7 @@ SPECIAL_IMPLS = {
                     error_line: parser.last_token_position,
                     errmsg,
                 })?;
-                String::new()
+                a2ml_text.clone()
             }
         };
 
